@@ -238,6 +238,9 @@ Fixpoint do_hist (st : state) (toks : list string) (acc : list string) (k : bool
     end
   end.
 
+(* handlers/icmp_spoofer ProcessPacket checks pkt.IP6().IsValid() first (repaired) *)
+Definition V4FIXED : bool := false.
+
 Definition dispatch (kind : string) (args : list string) : string :=
   if String.eqb kind "ra" then
     match args with
@@ -248,6 +251,19 @@ Definition dispatch (kind : string) (args : list string) : string :=
     match do_hist (init (-1)) args [] false with
     | Some (outs, k) => out3 (join " | " outs) "-" "-"
     | None => BADARGS
+    end
+  else if String.eqb kind "v4" then
+    (* an ICMPv6 message carried by an IPv4 packet (protocol 58): Parse classifies it as ICMPv6, pkt.IP6() is nil.
+       As the code is: the branches that read the IPv6 header (NS, unknown types, a processed RA) panic. *)
+    match args with
+    | [h] => match bytes_of_tok h with
+             | Some p => let t := nth 0 p 0 in
+                         if V4FIXED then out3 "err:EFrameLen" "err:EFrameLen" "-"
+                         else if (t =? 135) || negb (existsb (fun k => t =? k) [128;129;130;131;132;133;134;135;136;137;143;1])
+                         then out3 "panic" "-" "icmp6-over-ip4-panic" else out3 "ok" "-" "-"
+             | None => BADARGS
+             end
+    | _ => BADARGS
     end
   else BADARGS.
 
